@@ -47,6 +47,27 @@ theorem C05_marshal_image (n : String) (L : Layout) (h : Gen.Messages.all.lookup
     exact this (n, L) (C01.mem_of_lookup _ _ _ h)
   exact C18.C18_marshal_image L vs img hwf himg
 
+/-- every shipped layout has one of the two header shapes `Unmarshal` accepts back -/
+theorem C05_all_headers : Gen.Messages.all.all (fun p => Proofs.Codec.hdrShape p.2.leaves) = true := by decide
+
+/-- **decode ∘ encode = id** for every shipped message type and all in-domain values (hence
+    distinct values never share an encoding: `C18_injective`) -/
+theorem C05_round_trip (n : String) (L : Layout) (h : Gen.Messages.all.lookup n = some L)
+    (vs ws : List Val) (img : Bytes) (himg : image L.leaves vs = some img)
+    (hback : backAll L.leaves vs = some ws) :
+    marshal Gen.codecFacts C12.genTables L vs = .ok img ∧
+    unmarshal Gen.codecFacts C12.genTables C18.wireBounds L img = .ok ws := by
+  have hmem := C01.mem_of_lookup _ _ _ h
+  have hwf : wf L.leaves = true := by
+    have := C05_all_wf
+    rw [List.all_eq_true] at this
+    exact this (n, L) hmem
+  have hs : Proofs.Codec.hdrShape L.leaves = true := by
+    have := C05_all_headers
+    rw [List.all_eq_true] at this
+    exact this (n, L) hmem
+  exact C18.C18_round_trip L vs ws img hwf himg hback (C18.C18_header_ok L vs img hwf himg hs)
+
 /-- **frame**: the decoded value does not depend on bytes that belong to no field of the message -/
 theorem C05_frame (L : Layout) (b1 b2 : Bytes) (hlen : b1.length = b2.length)
     (h : ∀ i, Proofs.Codec.Reads L.leaves i → b1[i]? = b2[i]?) :
